@@ -3,6 +3,6 @@ CONSTANTS
   DEC = "1000000000000000000"
   U128MAX = "340282366920938463463374607431768211455"
   Users = {"user1", "user2", "user3"}
-  Rewards = {"uwhale", "uusdc", "rwd", "rwd2"}
+  Rewards = {"uwhale", "uusdc", "rwd", "rwd2", "lp"}
 POSTCONDITION Consumed
 CHECK_DEADLOCK FALSE
